@@ -6,6 +6,7 @@ import (
 	"encoding/json"
 	"fmt"
 	"sort"
+	"strings"
 
 	"github.com/ipld/go-ipld-prime/codec/dagcbor"
 	"github.com/ipld/go-ipld-prime/codec/dagjson"
@@ -121,7 +122,7 @@ func Check(eng typed.Engine, s *rs.Schema, c Case) (fs []core.Finding, outcome s
 			continue
 		}
 		if err != nil {
-			fs = append(fs, core.F(site+"/"+route+"/rejects-own-value("+core.Class(err.Error())+")", "%s: %v", where, err))
+			fs = append(fs, core.F(site+"/"+route+"/rejects-own-value("+rejectClass(err.Error())+")", "%s: %v", where, err))
 			continue
 		}
 		tv, rv, incs, pan := observeTyped(n)
@@ -174,7 +175,7 @@ func Check(eng typed.Engine, s *rs.Schema, c Case) (fs []core.Finding, outcome s
 		}
 	}
 	if len(fs) > 0 {
-		return fs, "bad"
+		return mergeRoutes(fs), "bad"
 	}
 	return nil, "ok:" + strategy(t)
 }
@@ -271,4 +272,52 @@ func sortTypedMaps(s *rs.Schema, t *rs.Type, v ref.Val, less func(a, b string) b
 
 func hasUnsortedTypedMap(s *rs.Schema, t *rs.Type, v ref.Val) bool {
 	return !ref.Equal(sortTypedMaps(s, t, v, ref.LessLenFirst), v)
+}
+
+func rejectClass(msg string) string {
+	switch {
+	case strings.Contains(msg, "union structure constraints") && strings.Contains(msg, "AssignNull"):
+		return "kinded-union-refuses-null-in-nullable-position"
+	case strings.Contains(msg, "typeinfomissing"):
+		return "stringprefix-without-delimiter-not-matched"
+	}
+	c := core.Class(msg)
+	if len(c) > 48 {
+		c = c[:48]
+	}
+	return c
+}
+
+// mergeRoutes turns per-route findings with otherwise equal signatures into one finding naming the route set.
+func mergeRoutes(fs []core.Finding) []core.Finding {
+	type agg struct {
+		f      core.Finding
+		routes []string
+	}
+	m := map[string]*agg{}
+	var order []string
+	for _, f := range fs {
+		key, route := f.Sig, ""
+		for _, r := range routes {
+			if strings.Contains(f.Sig, "/"+r+"/") {
+				key, route = strings.Replace(f.Sig, "/"+r+"/", "/{route}/", 1), r
+			}
+		}
+		a := m[key]
+		if a == nil {
+			a = &agg{f: f}
+			m[key] = a
+			order = append(order, key)
+		}
+		if route != "" {
+			a.routes = append(a.routes, route)
+		}
+	}
+	var out []core.Finding
+	for _, k := range order {
+		a := m[k]
+		a.f.Sig = strings.Replace(k, "{route}", strings.Join(a.routes, "+"), 1)
+		out = append(out, a.f)
+	}
+	return out
 }
